@@ -8,7 +8,7 @@ import (
 
 func (e StdEng) StackDense(t DenseTensor, axis int, others ...DenseTensor) (retVal DenseTensor, err error) {
 	opdims := t.Dims()
-	if axis >= opdims+1 {
+	if axis < 0 || axis >= opdims+1 {
 		err = errors.Errorf(dimMismatch, opdims+1, axis)
 		return
 	}
